@@ -1,11 +1,13 @@
 package kvfs
 
 import (
+	"errors"
 	"io"
 	"net/url"
 	"os"
 	"path/filepath"
 	"strings"
+	"syscall"
 
 	api "github.com/polydawn/go-timeless-api"
 	"github.com/polydawn/go-timeless-api/rio"
@@ -113,18 +115,20 @@ func (whCtrl Controller) OpenReader(wareID api.WareID) (io.ReadCloser, error) {
 			Join(fs.MustRelPath(chunkB)).
 			Join(fs.MustRelPath(wareID.Hash))
 	}
-	file, err := os.OpenFile(finalPath.String(), os.O_RDONLY, 0)
+	// (Non-blocking: opening a fifo for reading would otherwise wait for a writer, forever.  No effect on regular files.)
+	file, err := os.OpenFile(finalPath.String(), os.O_RDONLY|syscall.O_NONBLOCK, 0)
 	if err == nil {
-		// A directory opens just fine, but it is no ware: whoever asked would take "it opens" for "it is there".
-		if st, err2 := file.Stat(); err2 == nil && st.IsDir() {
+		// A directory (or a fifo, a device...) opens just fine, but it is no ware: whoever asked would take "it opens" for "it is there".
+		if st, err2 := file.Stat(); err2 == nil && !st.Mode().IsRegular() {
 			file.Close()
-			return nil, Errorf(rio.ErrWareNotFound, "ware %s not found in warehouse %s (a directory is in its place)", wareID, whCtrl.addr)
+			return nil, Errorf(rio.ErrWareNotFound, "ware %s not found in warehouse %s (something that is not a regular file is in its place)", wareID, whCtrl.addr)
 		}
 	}
 	switch {
 	case err == nil:
 		return file, nil
-	case os.IsNotExist(err):
+	case os.IsNotExist(err), errors.Is(err, syscall.ENOTDIR):
+		// (ENOTDIR: a regular file sits where one of the chunk directories would be.  The warehouse answered; the ware is not in it.)
 		return nil, Errorf(rio.ErrWareNotFound, "ware %s not found in warehouse %s", wareID, whCtrl.addr)
 	default:
 		return nil, Errorf(rio.ErrWarehouseUnavailable, "ware %s could not be retrieved from warehouse %s: %s", wareID, whCtrl.addr, err)
